@@ -35,6 +35,10 @@ PY = "/verif/.venv/bin/python"
 ALT_NAMES = {"eri": "W", "coulomb": "w", "fock": "h", "operator": "u", "gs_amplitude": "s",
              "gs_density": "r", "left_adc_amplitude": "L", "right_adc_amplitude": "R",
              "orb_energy": "z", "sym_orb_denom": "G"}
+# a configuration in which the new name of one field is the default name of another one
+CHAIN_NAMES = {"eri": "V", "coulomb": "v", "fock": "f", "operator": "d", "gs_amplitude": "t",
+               "gs_density": "q", "left_adc_amplitude": "Y", "right_adc_amplitude": "X",
+               "orb_energy": "e", "sym_orb_denom": "D"}
 DEFAULTS = {"eri": "V", "coulomb": "v", "fock": "f", "operator": "d", "gs_amplitude": "t",
             "gs_density": "p", "left_adc_amplitude": "X", "right_adc_amplitude": "Y",
             "orb_energy": "e", "sym_orb_denom": "D"}
@@ -64,10 +68,14 @@ class _Map(list):
     prefix = ()
 
 
-def rename_back(terms):
+PKG_NAMES = {}
+
+
+def rename_back(terms, pkg=None):
     from vlib.tv import rename_ir
-    m = _Map((ALT_NAMES[k], DEFAULTS[k]) for k in ALT_NAMES)
-    m.prefix = (ALT_NAMES["gs_amplitude"], ALT_NAMES["gs_density"])
+    names = PKG_NAMES.get(pkg, ALT_NAMES)
+    m = _Map((names[k], DEFAULTS[k]) for k in names if names[k] != DEFAULTS[k])
+    m.prefix = (names["gs_amplitude"], names["gs_density"])
     return rename_ir(terms, m)
 
 
@@ -81,7 +89,7 @@ def main():
     TIMEOUT = 60000 if quick else 300000
     run = Run("C19", a.tier, "translation_validation")
     requests = ["energy2", "amp2_ph", "re_res2", "ovl_pre2", "m_phph2", "mvp_ph1", "singles1", "dens2",
-                "wf_products"]
+                "wf_products", "rename_cfg"]
     if not quick:
         requests += ["energy3", "amp2_pphh", "m_ip_hphh1", "tm_ph2", "itmd_t2_2"]
     if a.replay:
@@ -96,11 +104,14 @@ def main():
     fut = ex0.submit(chrun.run_conditions, ch_conditions(a.tier), "", 8)
     # scratch copy of the package with another tensor-name configuration
     scratch = tempfile.mkdtemp(prefix="verif-c19-")
+    scratch2 = tempfile.mkdtemp(prefix="verif-c19-")
+    PKG_NAMES[scratch], PKG_NAMES[scratch2] = ALT_NAMES, CHAIN_NAMES
     try:
-        shutil.copytree(os.path.join(driver.REPO, "adcgen"), os.path.join(scratch, "adcgen"),
-                        ignore=shutil.ignore_patterns("__pycache__"))
-        with open(os.path.join(scratch, "adcgen", "tensor_names.json"), "w") as fh:
-            json.dump(ALT_NAMES, fh)
+        for sc in (scratch, scratch2):
+            shutil.copytree(os.path.join(driver.REPO, "adcgen"), os.path.join(sc, "adcgen"),
+                            ignore=shutil.ignore_patterns("__pycache__"))
+            with open(os.path.join(sc, "adcgen", "tensor_names.json"), "w") as fh:
+                json.dump(PKG_NAMES[sc], fh)
         jobs = []
         for req in requests:
             jobs.append((req, 0, 0, 0, None))                     # pristine reference
@@ -111,10 +122,13 @@ def main():
                     jobs.append((req, hs, base + 100 * k + h, 4 + 3 * h, None))
             jobs.append((req, 0, 0, 0, scratch))
             jobs.append((req, hashseeds[1], base + 5, 6, scratch))
+            if req in ("rename_cfg", "mvp_ph1", "tm_ph2"):
+                jobs.append((req, 0, 0, 0, scratch2))
         with ThreadPoolExecutor(max_workers=15) as ex:
             outs = list(ex.map(run_worker, jobs))
     finally:
         shutil.rmtree(scratch, ignore_errors=True)
+        shutil.rmtree(scratch2, ignore_errors=True)
     refs = {}
     for job, res, err in outs:
         if job[1:] == (0, 0, 0, None) and res is not None:
@@ -132,7 +146,7 @@ def main():
         if job[1:] == (0, 0, 0, None):
             continue
         irA = normalise_ir(ref["ir"])
-        irB = normalise_ir(rename_back(res["ir"]) if pkg else res["ir"])
+        irB = normalise_ir(rename_back(res["ir"], pkg) if pkg else res["ir"])
         T = {(s[0], s[1], s[2], 0) for s in ref["target"]}
         model = pick_model([irA, irB], T, [Model(2, 2), Model(2, 1), Model(1, 1)], budget=400000)
         try:
@@ -142,15 +156,15 @@ def main():
             continue
         r = oc.as_dict()
         desc = {"request": req, "PYTHONHASHSEED": hs, "history_seed": hseed_, "history_len": hlen,
-                "history": res.get("history"), "tensor_names": "alternative" if pkg else "default",
+                "history": res.get("history"), "tensor_names": ("alternative" if PKG_NAMES.get(pkg) is ALT_NAMES else "chained") if pkg else "default",
                 "terms": res.get("n_terms"), "model": model.tag, "verdict": oc.status}
         run.add_outcome(part, r, sample=desc if oc.status == "equal" else None,
-                        distinct_key=(req, hs, hseed_, bool(pkg)), nontrivial=bool(res.get("n_terms")))
+                        distinct_key=(req, hs, hseed_, desc["tensor_names"]), nontrivial=bool(res.get("n_terms")))
         payload = dict(desc, witness=oc.witness)
         if oc.status == "differ":
-            run.violation(f"value:{req}:{hs}:{hseed_}:{bool(pkg)}",
+            run.violation(f"value:{req}:{hs}:{hseed_}:{bool(pkg)}" + (":chained" if desc["tensor_names"] == "chained" else ""),
                           f"request {req} has another value under PYTHONHASHSEED={hs}, history seed {hseed_}"
-                          + (" with the alternative tensor names" if pkg else ""), payload)
+                          + (f" with the {desc['tensor_names']} tensor names" if pkg else ""), payload)
         if not pkg and res["text"] != ref["text"]:
             run.violation(f"text:{req}:{hs}:{hseed_}",
                           f"request {req}: text after substitute_contracted differs under PYTHONHASHSEED={hs}, history seed {hseed_}",
